@@ -13,6 +13,8 @@ namespace sim
     void start(uint64_t seed, bool randomise, size_t limit_bytes = 0);
     void *pool_alloc(size_t n); // a separate fixed-address LIFO pool for one kind of object (see layout.cpp)
     void pool_free(void *p);
+    void set_poison(int byte); // >= 0: every block handed out is filled with this byte first (what "uninitialised" or "just beyond" memory reads as is then the simulator's choice); -1 = off
+    void configure(size_t arena_bytes, size_t free_entries_per_class); // before the first start(): a smaller footprint (engines that run under an address-space limit)
     void stop();
     bool active();
     void suspend(); // nestable: allocations go to malloc (used around z3 and harness-internal work)
